@@ -42,6 +42,9 @@ type Case struct {
 	Type    string `json:"type,omitempty"`  // filled: struct type name
 	Seed    uint64 `json:"seed,omitempty"`
 	Payload []byte `json:"payload,omitempty"` // filled: payload the layer is written over
+	// BigPayload > 0: the layer is written over a generated payload of that many bytes (65500..70000: around and
+	// beyond the 16-bit length fields, where IPv6/UDP/TCP switch to jumbogram handling) instead of Payload
+	BigPayload int `json:"big_payload,omitempty"`
 	Fix     bool   `json:"fix_lengths"`
 	Csum    bool   `json:"compute_checksums"`
 	Dirty   Dirty  `json:"dirty"`
@@ -75,6 +78,9 @@ func (c *Case) build() (gopacket.SerializableLayer, []byte, string, bool) {
 		v := t.New()
 		fill.Fill(v, c.Seed)
 		sl, ok := v.(gopacket.SerializableLayer)
+		if c.BigPayload > 0 {
+			return sl, bigPayload(c.BigPayload), c.Type, ok
+		}
 		return sl, c.Payload, c.Type, ok
 	default:
 		var p gopacket.Packet
@@ -105,6 +111,14 @@ func (c *Case) build() (gopacket.SerializableLayer, []byte, string, bool) {
 		}
 		return l.(gopacket.SerializableLayer), append([]byte(nil), l.LayerPayload()...), name, true
 	}
+}
+
+func bigPayload(n int) []byte {
+	b := make([]byte, n)
+	for i := range b {
+		b[i] = byte(i*131 + i>>8 + 7)
+	}
+	return b
 }
 
 type outcome struct {
@@ -254,6 +268,13 @@ func genCase(t *rapid.T) *Case {
 		c.Type = rapid.SampledFrom(serNames).Draw(t, "type")
 		c.Seed = rapid.Uint64().Draw(t, "seed")
 		c.Payload = rapid.SliceOfN(rapid.Byte(), 0, 40).Draw(t, "payload")
+		if rapid.IntRange(0, 24).Draw(t, "big") == 0 {
+			c.Payload = nil
+			c.BigPayload = rapid.SampledFrom([]int{65500, 65527, 65528, 65535, 65536, 66000, 70000}).Draw(t, "bigpayload")
+			if rapid.Bool().Draw(t, "lengthsensitive") {
+				c.Type = rapid.SampledFrom([]string{"IPv6", "IPv4", "UDP", "TCP", "UDPLite", "IPv6Fragment", "GRE", "ICMPv6"}).Draw(t, "bigtype")
+			}
+		}
 		return c
 	}
 	c.Source = "decoded"
@@ -279,6 +300,9 @@ func TestSerialize(t *testing.T) {
 		f, name, nt := runCase(c)
 		js, _ := json.Marshal(c)
 		cls := []string{"source:" + c.Source}
+		if c.BigPayload > 0 {
+			cls = append(cls, "payload>65499")
+		}
 		if name != "" {
 			cls = append(cls, "type:"+name)
 		}
